@@ -44,8 +44,10 @@ CALLS = {
     "pdo": ("start", "start-other-period", "stop", "set-var", "update", "set-var2"),
     "hb": ("start", "start-other", "stop", "w1017-local", "w1017-zero-local", "w1017-sdo", "w1017-zero-sdo", "cmd", "assign"),
     "guard": ("start", "start-other", "stop", "stop"),
+    "rpdo": ("start", "start-other-period", "stop", "set-var", "update"),
 }
-PRODUCERS = ("sync", "pdo", "hb", "guard")
+PRODUCERS = ("sync", "pdo", "hb", "guard", "rpdo")
+BUS_OF = {"sync": "master", "guard": "master", "pdo": "slave", "hb": "slave", "rpdo": "master"}
 ALLCALLS = [(p, c) for p in PRODUCERS for c in sorted(set(CALLS[p]))]
 
 
@@ -100,8 +102,24 @@ class W:
         self.snet.add_node(self.local)
         rod = canopen.ObjectDictionary()
         rod.add_object(world.var("Producer heartbeat time", 0x1017, 0, odm.UNSIGNED16, "rw"))
+        rod.add_object(world.record("RPDO1 comm", 0x1400, [
+            world.var("n", 0x1400, 0, odm.UNSIGNED8, "ro", default=2),
+            world.var("COB-ID", 0x1400, 1, odm.UNSIGNED32, "rw", default=0x201),
+            world.var("Type", 0x1400, 2, odm.UNSIGNED8, "rw", default=255)]))
+        rod.add_object(world.record("RPDO1 map", 0x1600, [world.var("n", 0x1600, 0, odm.UNSIGNED8, "rw", default=0)] +
+                                    [world.var("e%d" % k, 0x1600, k, odm.UNSIGNED32, "rw", default=0) for k in range(1, 9)]))
+        rod.add_object(world.var("A", 0x2000, 0, odm.UNSIGNED16, "rw", default=0))
+        rod.add_object(world.var("B", 0x2001, 0, odm.INTEGER32, "rw", default=0))
+        rod.add_object(world.var("C", 0x2002, 0, odm.UNSIGNED8, "rw", default=0))
         self.remote = canopen.RemoteNode(self.nid, rod)
         self.mnet.add_node(self.remote)
+        rm = self.remote.rpdo[1]
+        rm.cob_id = 0x200 + self.nid
+        rm.enabled = True
+        rm.add_variable(0x2000)
+        rm.add_variable(0x2001)
+        rm.add_variable(0x2002)
+        self.rmap = rm
         m = self.local.tpdo[1]
         m.cob_id = 0x180 + self.nid
         m.enabled = True
@@ -115,13 +133,14 @@ class W:
         self.models["hb"].can_id = 0x700 + self.nid
         self.models["guard"].can_id = 0x700 + self.nid
         self.models["guard"].remote = True
+        self.models["rpdo"].can_id = 0x200 + self.nid
         self.hb_time = 0            # stored 0x1017 value
         self.state = 0              # slave NMT state number
         self.disconnected = False
         self.mark = self.ch.n
 
     def tasks_of(self, prod):
-        bus = {"sync": "master", "guard": "master", "pdo": "slave", "hb": "slave"}[prod]
+        bus = BUS_OF[prod]
         m = self.models[prod]
         out = []
         for t in self.ch.live_tasks:
@@ -168,7 +187,7 @@ def _advance(ctx, w, what, flavour):
         if isinstance(f.origin, tuple) and f.origin[0] == "periodic":
             for pname in PRODUCERS:
                 m = w.models[pname]
-                bus = {"sync": "master", "guard": "master", "pdo": "slave", "hb": "slave"}[pname]
+                bus = BUS_OF[pname]
                 if f.src == bus and f.can_id == m.can_id and bool(f.rtr) == m.remote:
                     if not m.running:
                         ctx.violation("C17/frame-from-stopped-producer/%s" % pname, "%s: frame %r emitted although the %s producer is stopped" % (what, f, pname))
@@ -208,14 +227,14 @@ def _do(ctx, w, prod, callname, flavour):
         else:
             _, exc = call(s.stop)
             m.running = False
-    elif prod == "pdo":
-        mp = w.map
+    elif prod in ("pdo", "rpdo"):
+        mp = w.map if prod == "pdo" else w.rmap
         if callname in ("start", "start-other-period"):
             per = (0.001, 0.01, 0.05, 0.5, 10.0)[ctx.choice(5, "per")]
             _, exc = call(mp.start, per)
             if before:
                 ctx.probe("pdo-restart")
-            m.running, m.period, m.payload = True, per, _pdo_payload(w)
+            m.running, m.period, m.payload = True, per, bytes(mp.data)
         elif callname == "stop":
             _, exc = call(mp.stop)
             m.running = False
@@ -226,12 +245,12 @@ def _do(ctx, w, prod, callname, flavour):
             def do():
                 mp[which].raw = val
             _, exc = call(do)
-            m.payload = _pdo_payload(w)
+            m.payload = bytes(mp.data)
             if before:
                 ctx.probe("pdo-update-in-place" if flavour != "fixed-copy" else "pdo-update-restart")
         else:
             _, exc = call(mp.update)
-            m.payload = _pdo_payload(w)
+            m.payload = bytes(mp.data)
     elif prod == "hb":
         sl = w.local.nmt
         if callname in ("start", "start-other"):
@@ -320,7 +339,18 @@ def scenario(ctx):
             p, c = ALLCALLS[ctx.choice(len(ALLCALLS), "call")]
             _do(ctx, w, p, c, flavour)
     # disconnecting the network stops the PDO tasks of all its nodes
-    if ctx.choice(2, "disconnect") == 1:
+    which = ctx.choice(3, "disconnect")
+    if which == 2:
+        _, exc = call(w.mnet.disconnect)
+        if exc is not None:
+            ctx.violation("C17/call-raised/%s@%s" % (type(exc).__name__, site(exc)), "master network disconnect() raised %r" % (exc,))
+        ctx.probe("disconnect")
+        ts = w.tasks_of("rpdo")
+        if ts:
+            ctx.violation("C17/task-leaked/rpdo-after-disconnect", "disconnect() left the RPDO task %r of the remote node running (backend cancels tasks in shutdown: %s)" % (
+                [(t.tid, t.describe()) for t in ts], w.cancel))
+        ctx.cover(("disconnect-master", w.cancel, flavour))
+    if which == 1:
         _, exc = call(w.snet.disconnect)
         if exc is not None:
             ctx.violation("C17/call-raised/%s@%s" % (type(exc).__name__, site(exc)), "slave network disconnect() raised %r" % (exc,))
